@@ -231,8 +231,8 @@ def element_parsing(
         # Handle generic notes
         if isinstance(element, spt.GenericNote):
             if total_duration_values[i] == 0:
-                duration_divs = symbolic_to_numeric_duration(
-                    element.symbolic_duration, divs_pq
+                duration_divs = ceil(
+                    symbolic_to_numeric_duration(element.symbolic_duration, divs_pq)
                 )
             else:
                 quarter_duration = 4 / total_duration_values[i]
